@@ -335,7 +335,20 @@ def _decide(cond_sym):
     return bool(cond_sym)
 
 
+def _spv(x):
+    return type(x).__name__ == "SpVal"
+
+
+def _spop(name, a, b):
+    """analytic mode: at least one operand is a sympy-backed value (the other may be a number or a z3-backed Sym such as pi)"""
+    import ast as _ast
+    from .spval import sp_binop
+    return sp_binop({"add": _ast.Add, "sub": _ast.Sub, "mul": _ast.Mult, "div": _ast.Div, "pow": _ast.Pow}[name], a, b)
+
+
 def add(a, b):
+    if _spv(a) or _spv(b):
+        return _spop("add", a, b)
     if _conc(a) and _conc(b):
         return a + b
     if _is_inf(a) or _is_inf(b):
@@ -346,6 +359,8 @@ def add(a, b):
 
 
 def sub(a, b):
+    if _spv(a) or _spv(b):
+        return _spop("sub", a, b)
     if _conc(a) and _conc(b):
         return a - b
     if _is_inf(a):
@@ -358,6 +373,8 @@ def sub(a, b):
 
 
 def mul(a, b):
+    if _spv(a) or _spv(b):
+        return _spop("mul", a, b)
     if _conc(a) and _conc(b):
         return a * b
     if _is_inf(a) or _is_inf(b):
@@ -389,6 +406,8 @@ def _zero_check(b, what):
 
 
 def truediv(a, b):
+    if _spv(a) or _spv(b):
+        return _spop("div", a, b)
     if _conc(a) and _conc(b):
         import numpy as np
         if type(a).__name__ == "SpVal" or type(b).__name__ == "SpVal":
@@ -448,6 +467,8 @@ def mod(a, b):
 
 
 def power(a, b):
+    if _spv(a) or _spv(b):
+        return _spop("pow", a, b)
     if _conc(a) and _conc(b):
         try:
             return a ** b
